@@ -67,6 +67,22 @@ func fixedGroupPrime(kex string) *big.Int {
 }
 
 func mpint(x *big.Int) []byte {
+	if x.Sign() < 0 {
+		// two's complement (RFC 4251 section 5)
+		n := (x.BitLen() + 8) / 8
+		t := new(big.Int).Lsh(big.NewInt(1), uint(8*n))
+		t.Add(t, x)
+		b := t.Bytes()
+		for len(b) < n {
+			b = append([]byte{0xff}, b...)
+		}
+		if len(b) > 1 && b[0] == 0xff && b[1]&0x80 != 0 {
+			b = b[1:] // shortest form
+		}
+		out := make([]byte, 4, 4+len(b))
+		binary.BigEndian.PutUint32(out, uint32(len(b)))
+		return append(out, b...)
+	}
 	b := x.Bytes()
 	if len(b) > 0 && b[0]&0x80 != 0 {
 		b = append([]byte{0}, b...)
@@ -100,11 +116,21 @@ func invalidDH(p *big.Int, i int) (*big.Int, string) {
 		return new(big.Int).Lsh(one, uint(p.BitLen())), "2^bitlen(p)"
 	case 6:
 		return new(big.Int).Add(new(big.Int).Lsh(p, 1), big.NewInt(5)), "2p+5"
+	case 7:
+		return big.NewInt(-1), "-1 (a negative mpint)"
+	case 8:
+		return big.NewInt(-2), "-2"
+	case 9:
+		return new(big.Int).Neg(new(big.Int).Sub(p, one)), "-(p-1)"
+	case 10:
+		return new(big.Int).Neg(p), "-p"
+	case 11:
+		return new(big.Int).Neg(new(big.Int).Add(p, one)), "-(p+1)"
 	}
 	return nil, ""
 }
 
-const numInvalidDH = 7
+const numInvalidDH = 12
 
 func curveFor(kex string) elliptic.Curve {
 	switch kex {
